@@ -396,6 +396,7 @@ func main() {
 	var cases []Case
 	var heapReplay *heapCase
 	var encReplay *encCase
+	var gfullReplay *gfullCase
 
 	if *replay != "" {
 		b, err := os.ReadFile(*replay)
@@ -414,7 +415,12 @@ func main() {
 				GRPCShape *Shape `json:"grpc_shape"`
 			} `json:"input"`
 		}
-		if err := json.Unmarshal(b, &ep); err == nil && (ep.Input.Shape != nil || ep.Input.GRPCShape != nil) {
+		var gp struct {
+			Input gfullCase `json:"input"`
+		}
+		if err := json.Unmarshal(b, &gp); err == nil && gp.Input.GRPCFull != nil {
+			gfullReplay = &gp.Input
+		} else if err := json.Unmarshal(b, &ep); err == nil && (ep.Input.Shape != nil || ep.Input.GRPCShape != nil) {
 			encReplay = &ep.Input.encCase
 			if encReplay.Shape == nil {
 				encReplay = &encCase{Formatter: "default", Encoding: "json", Shape: ep.Input.GRPCShape}
@@ -591,9 +597,10 @@ func main() {
 
 	nheap := runHeap(rng, *tier, *out, res, heapReplay)
 	nenc := runEncode(rng, *tier, *out, res, encReplay)
-	res.Evaluations = len(cases) + idx + nheap + nenc
+	ngf := runGRPCFull(rng, *tier, *out, res, gfullReplay)
+	res.Evaluations = len(cases) + idx + nheap + nenc + ngf
 	res.Distinct = len(distinct)
-	res.Rule = "merge trees: every tree shape over 1..N leaves (N=5 quick, 8 thorough) x random leaf vectors from {nil, plain, service(all flag/name/field/cause combinations), wrapped service}, plus random shapes over 2-8 leaves; merge HISTORIES over 2-5 error variables with operands reused after they were merged into (MergeErrors updates its first argument in place); non-trivial = at least two non-nil leaves, distinct = distinct (leaf vector, shape); status: all 8 flag vectors x 5 names x {direct, wrapped} + plain errors (exhaustive); client-side flags for every status code 100-599 (exhaustive); error encoder (goahttp.ErrorEncoder on an httptest recorder, and goagrpc.EncodeError): all 8 flag vectors x 5 names x 10 ways of holding the service error (bare, wrapped once/twice by fmt.Errorf or by a type with Unwrap, joined left/right, joined under wrappers, two service errors joined) + errors holding no service error + random shapes (wrapper chains of 0-12 links, joins, depth <= 4 nestings) x {default formatter JSON, default formatter XML, two custom formatters}"
+	res.Rule = "merge trees: every tree shape over 1..N leaves (N=5 quick, 8 thorough) x random leaf vectors from {nil, plain, service(all flag/name/field/cause combinations), wrapped service}, plus random shapes over 2-8 leaves; merge HISTORIES over 2-5 error variables with operands reused after they were merged into (MergeErrors updates its first argument in place); non-trivial = at least two non-nil leaves, distinct = distinct (leaf vector, shape); status: all 8 flag vectors x 5 names x {direct, wrapped} + plain errors (exhaustive); client-side flags for every status code 100-599 (exhaustive); error encoder (goahttp.ErrorEncoder on an httptest recorder, and goagrpc.EncodeError): all 8 flag vectors x 5 names x 10 ways of holding the service error (bare, wrapped once/twice by fmt.Errorf or by a type with Unwrap, joined left/right, joined under wrappers, two service errors joined) + errors holding no service error + random shapes (wrapper chains of 0-12 links, joins, depth <= 4 nestings) x {default formatter JSON, default formatter XML, two custom formatters}; gRPC EncodeError in full: status errors of codes 1-17 and 77 bare / wrapped / joined with plain, service and other status errors + random shapes with status leaves, each encoded once and re-encoded 1-3 more times; witness shapes whose status already carries details"
 	for _, c := range cases {
 		res.Cases = append(res.Cases, c)
 	}
